@@ -2,6 +2,7 @@ package timestamp
 
 import (
 	"fmt"
+	"strconv"
 	"sync"
 	"time"
 )
@@ -9,6 +10,7 @@ import (
 //Timestamp records timestamps
 type Timestamp struct {
 	stamps sync.Map
+	lock   sync.Mutex
 }
 
 //NewTimestamp creates a new Timestamp recorder
@@ -16,9 +18,18 @@ func NewTimestamp() Timestamp {
 	return Timestamp{stamps: sync.Map{}}
 }
 
-//Touch updates an entry in the timestamp
+//Touch updates an entry in the timestamp. The new stamp always differs from
+//the previous one, also when the clock has not advanced between two calls.
 func (ts *Timestamp) Touch(name string) {
-	ts.stamps.Store(name, fmt.Sprintf("%d", time.Now().UnixNano()))
+	ts.lock.Lock()
+	defer ts.lock.Unlock()
+	now := time.Now().UnixNano()
+	if o, ok := ts.stamps.Load(name); ok {
+		if prev, err := strconv.ParseInt(o.(string), 10, 64); err == nil && now <= prev {
+			now = prev + 1
+		}
+	}
+	ts.stamps.Store(name, fmt.Sprintf("%d", now))
 }
 
 //Get gets the current timestamp
